@@ -261,12 +261,56 @@ func Plan(tier string, seed uint64) []Cfg {
 			}
 			c.Tasks = append(c.Tasks, steps)
 		}
+		if i%8 == 3 && !big {
+			// (the refill cases go through the light entry points in turn)
+			focus = light[(i/8)%len(light)]
+		}
+		if i%8 == 3 && !big && !Catalogue[focus].Heavy {
+			// one or two callers, each presenting three or four samples in one
+			// buffer of its own that it refills in place; consecutive calls stay
+			// in one family of entry points (the same test, other parameters)
+			c.Refill = true
+			if nin < 2 {
+				c.Inputs = append(c.Inputs, InputSpec{N: c.Inputs[0].N, Seed: 16 + r.Uint64()%16, Kind: "prf"})
+				nin = 2
+			}
+			for k := range c.Inputs {
+				c.Inputs[k].N = c.Inputs[0].N
+			}
+			fam := func(n string) string {
+				if j := strings.IndexAny(n, "(["); j >= 0 {
+					return n[:j]
+				}
+				return n
+			}
+			var same []int
+			for k, cd := range Catalogue {
+				if fam(cd.Name) == fam(Catalogue[focus].Name) && !cd.Heavy && cd.MinBits <= c.Inputs[0].N*8 {
+					same = append(same, k)
+				}
+			}
+			if len(same) == 0 {
+				same = []int{focus}
+			}
+			c.Tasks = nil
+			for t := 0; t < 1+r.Intn(2); t++ {
+				var steps []Step
+				for s := 0; s < 3+r.Intn(2); s++ {
+					call := same[r.Intn(len(same))]
+					if Catalogue[focus].Heavy {
+						call = focus
+					}
+					steps = append(steps, Step{Call: call, Input: r.Intn(nin)})
+				}
+				c.Tasks = append(c.Tasks, steps)
+			}
+		}
 		c.Quantum = []int64{17, 130, 1100, 9000, 70000}[r.Intn(5)]
 		if Catalogue[focus].Heavy && c.Quantum < 1000 {
 			c.Quantum = 1100
 		}
 		c.Policy = genPolicy(r, 2000)
-		c.Windowed = r.Intn(2) == 0
+		c.Windowed = r.Intn(2) == 0 && !c.Refill
 		c.NumCPU = []int{1, 2, 3, 4, 5, 6, 7, 8, 12, 16, 24}[r.Intn(11)]
 		if huge {
 			// (half of them under a soft memory limit, as GOMEMLIMIT sets it)
